@@ -1,6 +1,20 @@
 package main
 
-// Extra (non-SMT) checks attached to a property: bounded stand-ins and tool validation.
+import (
+	"bytes"
+	"fmt"
+	"os"
+	"os/exec"
+	"path/filepath"
+	"regexp"
+	"regexp/syntax"
+	"strings"
+	"time"
+)
+
+// Extra (non-SMT) checks attached to a property: bounded stand-ins for assumed
+// lemmas and validation of the engine's own translators. They are labelled
+// bounded in the evidence and never counted as discharged obligations.
 type extraViolation struct {
 	Name      string
 	Body      string
@@ -14,5 +28,174 @@ type extraResult struct {
 }
 
 func runExtras(e *Engine, o checkOpts) []*extraResult {
-	return nil
+	var out []*extraResult
+	switch o.prop {
+	case "C17":
+		out = append(out, splitLemmaCheck(o), regexTranslatorCheck(e, o))
+	}
+	return out
+}
+
+func enumStrings(alphabet string, maxLen int, f func(s string)) int {
+	n := 0
+	var rec func(prefix []byte)
+	rec = func(prefix []byte) {
+		f(string(prefix))
+		n++
+		if len(prefix) == maxLen {
+			return
+		}
+		for i := 0; i < len(alphabet); i++ {
+			rec(append(prefix, alphabet[i]))
+		}
+	}
+	rec(nil)
+	return n
+}
+
+// splitLemmaCheck validates the two assumed clauses split1/split2 of
+// ValidateBucketName against the real strings.Split and regexp packages.
+func splitLemmaCheck(o checkOpts) *extraResult {
+	start := time.Now()
+	label := regexp.MustCompile(`^[a-z0-9]([a-z0-9\.-]+)[a-z0-9]$`)
+	spec := regexp.MustCompile(`^[a-z0-9][a-z0-9-]+[a-z0-9](\.[a-z0-9][a-z0-9-]+[a-z0-9])*$`)
+	maxLen := 9
+	if o.tier == "thorough" {
+		maxLen = 11
+	}
+	res := &extraResult{Name: "split-lemma"}
+	bad := 0
+	n := enumStrings("a0-.", maxLen, func(s string) {
+		all := true
+		for _, p := range strings.Split(s, ".") {
+			if !label.MatchString(p) {
+				all = false
+			}
+		}
+		if all != spec.MatchString(s) && bad < 3 {
+			bad++
+			res.Violations = append(res.Violations, extraViolation{Name: fmt.Sprintf("case%d", bad), Confirmed: true,
+				Body: fmt.Sprintf("obligation: assumed lemma split1/split2 of ValidateBucketName\nfailing input: %q: every piece matches the label pattern = %v, whole name matches the specification pattern = %v\n", s, all, spec.MatchString(s))})
+		}
+	})
+	res.Summary = map[string]interface{}{"check": "assumed clauses split1/split2 (strings.Split pieces vs. specification pattern)", "bounded": true,
+		"bound": fmt.Sprintf("all strings over {a,0,-,.} up to length %d", maxLen), "cases": n, "wall_s": time.Since(start).Seconds()}
+	return res
+}
+
+// regexTranslatorCheck compares the engine's regexp -> RegLan translation with
+// the real regexp package on all short strings (z3 evaluates ground memberships).
+func regexTranslatorCheck(e *Engine, o checkOpts) *extraResult {
+	start := time.Now()
+	res := &extraResult{Name: "regex-translator"}
+	pats := map[string]bool{}
+	re := regexp.MustCompile(`inre\([^,]+,\s*"((?:[^"\\]|\\.)*)"\)`)
+	for _, ct := range e.specs.Contracts {
+		collect := func(cs []*Clause) {
+			for _, c := range cs {
+				for _, m := range re.FindAllStringSubmatch(c.Text, -1) {
+					if p, err := unquoteGo(m[1]); err == nil {
+						pats[p] = true
+					}
+				}
+			}
+		}
+		collect(ct.Requires)
+		collect(ct.Ensures)
+		for _, l := range ct.Loops {
+			collect(l.Invariants)
+			collect(l.Assumes)
+		}
+	}
+	for _, p := range e.specs.Preds {
+		for _, m := range re.FindAllStringSubmatch(p.Text, -1) {
+			if pp, err := unquoteGo(m[1]); err == nil {
+				pats[pp] = true
+			}
+		}
+	}
+	for _, gi := range e.globals {
+		if gi.hasRegex && !gi.external {
+			pats[gi.regex] = true
+		}
+	}
+	maxLen := 4
+	if o.tier == "thorough" {
+		maxLen = 5
+	}
+	var strs []string
+	enumStrings("az09-.A:", maxLen, func(s string) { strs = append(strs, s) })
+	cases := 0
+	dir, _ := os.MkdirTemp("", "gvc-re-")
+	defer os.RemoveAll(dir)
+	for pat := range pats {
+		gre, err := regexp.Compile(pat)
+		if err != nil {
+			continue
+		}
+		sre, err := syntax.Parse(pat, syntax.Perl)
+		if err != nil {
+			continue
+		}
+		rl, as, ae, err := regexToRegLan(sre.Simplify())
+		if err != nil {
+			res.Violations = append(res.Violations, extraViolation{Name: "untranslatable", Body: "regexp " + pat + " cannot be translated: " + err.Error() + "\n"})
+			continue
+		}
+		if !as {
+			rl = "(re.++ re.all " + rl + ")"
+		}
+		if !ae {
+			rl = "(re.++ " + rl + " re.all)"
+		}
+		var b bytes.Buffer
+		b.WriteString("(define-fun R () RegLan " + rl + ")\n")
+		for _, s := range strs {
+			b.WriteString("(simplify (str.in_re " + smtStringLit(s) + " R))\n")
+		}
+		f := filepath.Join(dir, "re.smt2")
+		os.WriteFile(f, b.Bytes(), 0o644)
+		out, _ := exec.Command("z3-new", f).Output()
+		lines := strings.Split(strings.TrimSpace(string(out)), "\n")
+		if len(lines) != len(strs) {
+			res.Violations = append(res.Violations, extraViolation{Name: "solver", Body: "regex translator validation: unexpected solver output for " + pat + "\n" + truncate(string(out), 500)})
+			continue
+		}
+		for i, s := range strs {
+			cases++
+			want := gre.MatchString(s)
+			got := strings.TrimSpace(lines[i]) == "true"
+			if want != got {
+				res.Violations = append(res.Violations, extraViolation{Name: "mismatch", Confirmed: true,
+					Body: fmt.Sprintf("regex translator validation: pattern %q on %q: regexp package says %v, RegLan translation says %v\n", pat, s, want, got)})
+				break
+			}
+		}
+	}
+	res.Summary = map[string]interface{}{"check": "tool validation: regexp/syntax -> SMT RegLan translation vs. the regexp package", "bounded": true,
+		"bound": fmt.Sprintf("all strings over {a,z,0,9,-,.,A,:} up to length %d, %d patterns", maxLen, len(pats)), "cases": cases, "wall_s": time.Since(start).Seconds()}
+	return res
+}
+
+func unquoteGo(s string) (string, error) {
+	var b strings.Builder
+	for i := 0; i < len(s); i++ {
+		if s[i] == '\\' && i+1 < len(s) {
+			switch s[i+1] {
+			case '\\':
+				b.WriteByte('\\')
+			case '"':
+				b.WriteByte('"')
+			case 'n':
+				b.WriteByte('\n')
+			default:
+				b.WriteByte('\\')
+				b.WriteByte(s[i+1])
+			}
+			i++
+			continue
+		}
+		b.WriteByte(s[i])
+	}
+	return b.String(), nil
 }
